@@ -16,7 +16,9 @@ def call_alternatives(call, max_tasks=MAX_TASKS):
     else:
         # beyond the bound: every permutation of every max_tasks-subset moved to the front
         perms = []
-        for sub in itertools.combinations(range(n), max_tasks):
+        # (more than 8 tasks: the subsets are taken among six positions - the first two, the middle two, the last two)
+        positions = range(n) if n <= 8 else sorted(set([0, 1, n // 2 - 1, n // 2, n - 2, n - 1]))
+        for sub in itertools.combinations(positions, max_tasks):
             rest = [i for i in range(n) if i not in sub]
             for p in itertools.permutations(sub):
                 perms.append(tuple(p) + tuple(rest))
